@@ -4,7 +4,7 @@
    the code as it is; likewise ScaleRaises from C02_SCALE = "raises" | "ok"), the harness sets it after determining which design the code under test implements. *)
 EXTENDS Inventory, IOUtils
 Z == <<0, 1>>
-Wt == [a |-> 2, b |-> 3, c |-> 5, d |-> 7]
+Wt == [a |-> 2, b |-> 3, c |-> 5, d |-> 7, e |-> 4]
 ScaleRaisesEnv == ~("C02_SCALE" \in DOMAIN IOEnv /\ IOEnv.C02_SCALE = "ok")     \* default: the code as it is
 LeafVolCutEnv == "C02_LEAFVOL" \in DOMAIN IOEnv /\ IOEnv.C02_LEAFVOL = "cut"
 
@@ -67,11 +67,42 @@ TGapTargetsAll == {1, 3, 4, 5, 6, 7}        \* not the gap itself
 TGapHAll == {5}
 TGapTargets == {1, 3, 5}
 
+\* ---- quarter-core Cartesian model with the symmetry lines through the centre assembly: assembly 9 at (0,0) (Sym 4), 10 at (1,0) on a
+\*      symmetry line (Sym 2), 11 at the interior position (1,1) with a bottom block 7 (k = 0) and a block 8 above it (Sym 1 both); core 12
+TCartParent == <<5, 6, 7, 8, 9, 10, 11, 11, 12, 12, 12>>
+TCartArea   == <<4, 2, 2, 2>>
+TCartHeight == (5 :> 1) @@ (6 :> 2) @@ (7 :> 1) @@ (8 :> 2)
+TCartSym    == (5 :> 4) @@ (6 :> 2) @@ (7 :> 1) @@ (8 :> 1)
+TCartN0 == << [a |-> <<1, 1>>, b |-> <<2, 1>>, c |-> Z,        d |-> <<1, 2>>],
+             [a |-> <<2, 1>>, b |-> Z,        c |-> <<1, 1>>, d |-> Z],
+             [a |-> <<1, 1>>, b |-> <<1, 1>>, c |-> Z,        d |-> Z],
+             [a |-> Z,        b |-> Z,        c |-> <<2, 1>>, d |-> Z] >>
+TCartH0 == << {"a", "b", "d"}, {"a", "c"}, {"a", "b"}, {"c"} >>
+TCartTargetsAll == 1..12
+TCartHAll == {5, 6, 7, 8}
+
+\* ---- the block tree with a lumped fission product e (WithLump): two components hold the lump, c is held explicitly as well
+TLfpParent == TBlkParent
+TLfpArea   == TBlkArea
+TLfpHeight == TBlkHeight
+TLfpSym    == TBlkSym
+TLfpN0 == << [a |-> <<1, 1>>, b |-> <<2, 1>>, c |-> Z,        d |-> <<1, 2>>, e |-> <<1, 1>>],
+            [a |-> <<2, 1>>, b |-> Z,        c |-> <<1, 1>>, d |-> Z,        e |-> <<1, 2>>],
+            [a |-> Z,        b |-> Z,        c |-> <<3, 1>>, d |-> Z,        e |-> Z] >>
+TLfpH0 == << {"a", "b", "d", "e"}, {"a", "c", "e"}, {"c"} >>
+TLfpTargetsAll == TBlkTargetsAll
+TLfpTargets == TBlkTargets
+TLfpHAll == {4}
+Yes == TRUE
+No  == FALSE
+
 \* ---- parameter domains
 ValsQ   == {Z, <<1, 1>>, <<3, 2>>}
 FacsQ   == {<<1, 2>>, <<3, 1>>}
 MassesQ == {<<1, 1>>, <<6, 1>>}
-MapsQ   == { ("a" :> <<1, 1>>) @@ ("b" :> Z),
+EmptyMap == [n \in {} |-> Z]          \* setNumberDensities({}): voiding (component: everything wiped; above: everything to zero)
+MapsQ   == { EmptyMap,
+             ("a" :> <<1, 1>>) @@ ("b" :> Z),
              ("b" :> <<2, 1>>) @@ ("c" :> <<1, 2>>),
              ("c" :> <<3, 1>>) }
 FracMapsQ == { ("a" :> <<1, 2>>),
